@@ -81,18 +81,18 @@ def new (src : List StyledScanline) (strokeColor fillColor : Option Color) : Sty
   ⟨src, Scanline.newEmpty 0, Scanline.newEmpty 0, Scanline.newEmpty 0, strokeColor, fillColor⟩
 
 /-- `(Some(stroke), None) => loop { .. }` -/
-def loopStroke (sc : Color) (fc : Option Color) :
+def loopStroke (sc : Color) :
     List StyledScanline → Scanline → Scanline → Scanline → Option ((Pt × Color) × StyledPixelsIt)
   | src, sl, f, sr =>
     match sl.next with
-    | some (p, sl') => some ((p, sc), ⟨src, sl', f, sr, some sc, fc⟩)
+    | some (p, sl') => some ((p, sc), ⟨src, sl', f, sr, some sc, none⟩)
     | none =>
       match sr.next with
-      | some (p, sr') => some ((p, sc), ⟨src, sl, f, sr', some sc, fc⟩)
+      | some (p, sr') => some ((p, sc), ⟨src, sl, f, sr', some sc, none⟩)
       | none =>
         match src with
         | [] => none
-        | l :: rest => loopStroke sc fc rest l.strokeLeft f l.strokeRight
+        | l :: rest => loopStroke sc rest l.strokeLeft f l.strokeRight
 
 /-- `(Some(stroke), Some(fill)) => loop { .. }` -/
 def loopBoth (sc fc : Color) :
@@ -125,7 +125,7 @@ def loopFill (fc : Color) :
 /-- `Iterator::next` -/
 def next (it : StyledPixelsIt) : Option ((Pt × Color) × StyledPixelsIt) :=
   match it.strokeColor, it.fillColor with
-  | some sc, none => loopStroke sc none it.src it.strokeLeft it.fill it.strokeRight
+  | some sc, none => loopStroke sc it.src it.strokeLeft it.fill it.strokeRight
   | some sc, some fc => loopBoth sc fc it.src it.strokeLeft it.fill it.strokeRight
   | none, some fc => loopFill fc it.src it.strokeLeft it.fill it.strokeRight
   | none, none => none
